@@ -1709,6 +1709,54 @@ def r5_budget_symbolic(ck, repo, nf: NF, qual: str, budget: str):
                         if not okv and (_unread(got) or not got.atoms() <= {G, budget}):
                             raise AnalysisError(f"{site}: train_st({key}={short(kw[key], 50)}) (unrecognised form)")
                     ck.ob("R5-scheduler", site, what, okv, f"train_st({key}={shown})", "" if okv else why, loc(mi, c))
+                # warm-up frame: the single-task routine compares the threshold it is given with the step counter it is given; the scheduler
+                # hands over its *global* counter, so the threshold must be the scheduler's own (absolute) `learning_starts`
+                LS = "learning_starts"
+                if LS in param_names(fn):
+                    if kw.get(LS) is None:
+                        raise AnalysisError(f"{site}: `{short(c, 50)}` does not pass `{LS}` by keyword (unrecognised form)")
+                    ssc2 = Scope(cfg, mi, {}, qual)
+                    ssc2.opaque_names = {G, budget, LS}
+                    got = nf.poly(kw[LS], ssc2, n.id)
+                    okv = got.canon() == LS
+                    gs = kw.get("global_step")
+                    if not okv:
+                        # evidence for another threshold: the value is computed from the scheduler's own threshold *and* from state that changes
+                        # between scheduling decisions (per-task totals, the step counter), while the routine still receives the global counter
+                        body = cfg.loop_body_nodes(H.id)
+                        state = set(_loop_state(cfg, H.id))
+                        for nid in body:
+                            st = cfg.nodes[nid].ast
+                            tg = [st.target] if isinstance(st, ast.AugAssign) else (st.targets if isinstance(st, ast.Assign) else [])
+                            for t_ in tg:
+                                if isinstance(t_, ast.Subscript) and isinstance(t_.value, ast.Name):
+                                    state.add(t_.value.id)
+                        leaves = _leaf_names(cfg, kw[LS], n.id, state)
+                        if leaves is None or LS not in leaves or not (leaves & state) or gs is None or nf.poly(gs, ssc, n.id).canon() != G:
+                            raise AnalysisError(f"{site}: train_st({LS}={short(kw[LS], 50)}) (unrecognised form)")
+                    ck.ob("R5-scheduler", site, "subcall-warm-up", okv, f"train_st({LS}={short(kw[LS])}, global_step={short(gs) if gs is not None else None})",
+                          "" if okv else f"the single-task routine starts from the scheduler's global step counter but is given another warm-up threshold than the scheduler's `{LS}` "
+                          "(a threshold made relative to a per-task count is reached earlier than the documented one: updates before the warm-up has passed)", loc(mi, c))
+
+
+def _leaf_names(cfg, e, at, stop=frozenset(), depth=0):
+    """Names an expression is computed from, looking through temporaries (names with one reaching plain assignment); None when a name
+    has several reaching definitions of different kinds that are not loop state (not read)."""
+    if depth > 6:
+        return None
+    out = set()
+    for x in ast.walk(e):
+        if not (isinstance(x, ast.Name) and isinstance(x.ctx, ast.Load)):
+            continue
+        ds = cfg.defs_of(at, x.id)
+        if x.id not in stop and len(ds) == 1 and ds[0].kind == "assign" and isinstance(ds[0].value, ast.AST) and not isinstance(ds[0].value, ast.stmt):
+            sub = _leaf_names(cfg, ds[0].value, ds[0].node, stop, depth + 1)
+            if sub is None:
+                return None
+            out |= sub
+        else:
+            out.add(x.id)
+    return out
 
 
 def _scheduler_guard(repo, cfg, mi, site, H, budget):
@@ -1987,6 +2035,8 @@ def run(ck, repo: Repo, tier: str):
 # ---- self-validation variants (thorough tier) ------------------------------------------------------------
 _A = "rl_blox/algorithm/"
 MUTANTS = [
+    {"id": "c11-amt-warm-up-relative-to-task", "file": _A + "active_mt.py", "rule": "R5", "find": '            learning_starts=learning_starts,\n            total_timesteps=total_timesteps,\n', "replace": '            learning_starts=max(0, learning_starts - training_steps[task_id]),\n            total_timesteps=total_timesteps,\n'},
+    {"id": "c11-amt-warm-up-minus-global", "file": _A + "active_mt.py", "rule": "R5", "find": '            learning_starts=learning_starts,\n            total_timesteps=total_timesteps,\n', "replace": '            learning_starts=learning_starts - global_step,\n            total_timesteps=total_timesteps,\n'},
     {"id": "c11-td3-guard-le", "file": _A + "td3.py", "rule": "R2-budget", "find": "    while step < total_timesteps:", "replace": "    while step <= total_timesteps:"},
     {"id": "c11-td3-double-inc", "file": _A + "td3.py", "rule": "R1", "find": "        bar.update()\n        step += 1\n", "replace": "        bar.update()\n        step += 1\n        if termination:\n            step += 1\n"},
     {"id": "c11-td3-return-minus-one", "file": _A + "td3.py", "rule": "R1", "find": "        replay_buffer,\n        step,\n    )", "replace": "        replay_buffer,\n        step - 1,\n    )"},
@@ -2051,6 +2101,7 @@ MUTANTS = [
     {"id": "c11-ducb-threshold-le", "file": "rl_blox/blox/mapb.py", "rule": "R5", "find": "        if len(self.rewards) < 2 * self.n_arms:", "replace": "        if len(self.rewards) <= 2 * self.n_arms:"},
 ]
 BENIGN = [
+    {"id": "c11-b-amt-warm-up-int", "file": _A + "active_mt.py", "find": '            learning_starts=learning_starts,\n            total_timesteps=total_timesteps,\n', "replace": '            learning_starts=int(learning_starts),\n            total_timesteps=total_timesteps,\n'},
     {"id": "c11-b-td3-rename-counter", "file": _A + "td3.py", "all": True, "find": "episode_idx", "replace": "n_episodes_done"},
     {"id": "c11-b-td3-inc-before-bar", "file": _A + "td3.py", "find": "        bar.update()\n        step += 1\n", "replace": "        step += 1\n        bar.update()\n"},
     {"id": "c11-b-td3-flipped-guard", "file": _A + "td3.py", "find": "    while step < total_timesteps:", "replace": "    while total_timesteps > step:"},
